@@ -1,2 +1,18 @@
--- Root of the `Ecpint` library: models, generated data, property theorems.
+-- Root of the `Ecpint` library: models, generated data, property theorems (one root per property).
+import Ecpint.Props.C01
+import Ecpint.Props.C02
+import Ecpint.Props.C03
+import Ecpint.Props.C04
 import Ecpint.Props.C05
+import Ecpint.Props.C06All
+import Ecpint.Props.C07All
+import Ecpint.Props.C08
+import Ecpint.Props.C09All
+import Ecpint.Props.C10
+import Ecpint.Props.C11
+import Ecpint.Props.C12
+import Ecpint.Props.C13
+import Ecpint.Props.C14
+import Ecpint.Props.C15
+import Ecpint.Props.C16
+import Ecpint.Props.C17
